@@ -161,6 +161,8 @@ module type INST = sig
     (((coq_N, se, coq_N Script.pstate) McSys.mcsys * (coq_N, se, coq_N Script.pstate) McRun.mcresult)
      * (coq_N, se, coq_N Script.pstate) McSys.mcstate Search.sstate) Util.result) option
   val get_state : (coq_N, se, coq_N Script.pstate) McSys.mcsys -> (coq_N, se, coq_N Script.pstate) McSys.mcstate
+  (* C19: the battery of library predicates (node of process 0, node of process 1, two payload strings) *)
+  val battery : (coq_N -> coq_N -> coq_N list -> coq_N list -> (coq_N, se, coq_N Script.pstate) McSys.mcstate -> bool option list) option
 end
 
 module Concrete : INST with type se = coq_N Store.store = struct
@@ -181,6 +183,7 @@ module Concrete : INST with type se = coq_N Store.store = struct
   let run = McInst.i_run
   let run_from_states = Some (fun tab progs -> McInst.i_run_from_states tab progs (fun l -> l))
   let get_state = McInst.i_get_state
+  let battery = Some PredInst.pred_battery
 end
 
 module Reference : INST with type se = coq_N StoreSpec.astore = struct
@@ -198,6 +201,7 @@ module Reference : INST with type se = coq_N StoreSpec.astore = struct
   let run = McInst.r_run
   let run_from_states = None
   let get_state = McInst.r_get_state
+  let battery = None
 end
 
 module Make (I : INST) = struct
@@ -336,8 +340,14 @@ module Make (I : INST) = struct
       if !verbose then c_state s
       else
         let (x, k) = crash_info s in
-        Printf.sprintf "d=%s core=%s red=%s eqp=%s tr=%s c=%s v=%s x=%s k=%s" (sn s.McSys.st_depth) (fnv (c_state_core s))
-          (fnv (c_state_red s)) (fnv (c_state_eqp s)) (fnv (c_trace s.McSys.st_trace)) (b01 (e_collect ps s)) (verdict_text ps s) x k in
+        let node_of p = (match LL.find_opt (fun (q, _, _) -> q = n_of_int p) !procs with Some (_, n, _) -> n | None -> N0) in
+        let bytes s = LL.init (SS.length s) (fun i -> n_of_int (Char.code (Stdlib.String.get s i))) in
+        let pb = (match I.battery with
+            | None -> "-"
+            | Some f -> cat "" (LL.map (function Some true -> "1" | Some false -> "0" | None -> "x")
+                                  (f (node_of 0) (node_of 1) (bytes "plain") (bytes "{\"k\": \"v\"}") s))) in
+        Printf.sprintf "d=%s core=%s red=%s eqp=%s tr=%s c=%s v=%s x=%s k=%s pb=%s" (sn s.McSys.st_depth) (fnv (c_state_core s))
+          (fnv (c_state_red s)) (fnv (c_state_eqp s)) (fnv (c_trace s.McSys.st_trace)) (b01 (e_collect ps s)) (verdict_text ps s) x k pb in
     let report res =
       match res with
       | Util.Panic _ -> add "RESULT PANIC\n"
